@@ -51,7 +51,9 @@ struct ConcatEnvelope {
 }
 
 fn be_u64(b: &[u8], at: usize) -> Option<u64> {
-    Some(u64::from_be_bytes(b.get(at..at.checked_add(8)?)?.try_into().ok()?))
+    Some(u64::from_be_bytes(
+        b.get(at..at.checked_add(8)?)?.try_into().ok()?,
+    ))
 }
 
 fn put_u64(b: &mut [u8], at: usize, v: u64) {
@@ -75,10 +77,20 @@ fn sigreg_legacy(s: &mut [u8], hit: &mut Vec<&'static str>) {
         put_u64(s, 0, size_reg_eff);
         hit.push(F_SIGREG_OVERFLOW);
     }
-    let Some(sig_offset) = 8u64.checked_add(size_reg_eff) else { return };
-    let Ok(sig_offset_us) = usize::try_from(sig_offset) else { return };
-    let Some(size_sig) = be_u64(s, sig_offset_us) else { return };
-    if sig_offset.checked_add(8).and_then(|x| x.checked_add(size_sig)).is_none() {
+    let Some(sig_offset) = 8u64.checked_add(size_reg_eff) else {
+        return;
+    };
+    let Ok(sig_offset_us) = usize::try_from(sig_offset) else {
+        return;
+    };
+    let Some(size_sig) = be_u64(s, sig_offset_us) else {
+        return;
+    };
+    if sig_offset
+        .checked_add(8)
+        .and_then(|x| x.checked_add(size_sig))
+        .is_none()
+    {
         put_u64(s, sig_offset_us, len);
         hit.push(F_SIGREG_OVERFLOW);
     }
@@ -107,13 +119,21 @@ fn concat_legacy(v: &mut [u8], hit: &mut Vec<&'static str>) {
     for _ in 0..total_eff {
         let Some(size) = be_u64(v, index) else { return };
         let mut size_eff = size;
-        if (index as u64).checked_add(8).and_then(|x| x.checked_add(size)).is_none() {
+        if (index as u64)
+            .checked_add(8)
+            .and_then(|x| x.checked_add(size))
+            .is_none()
+        {
             size_eff = len as u64;
             put_u64(v, index, size_eff);
             hit.push(F_CONCAT_OVERFLOW);
         }
-        let Ok(size_us) = usize::try_from(size_eff) else { return };
-        let Some(end) = index.checked_add(8).and_then(|x| x.checked_add(size_us)) else { return };
+        let Ok(size_us) = usize::try_from(size_eff) else {
+            return;
+        };
+        let Some(end) = index.checked_add(8).and_then(|x| x.checked_add(size_us)) else {
+            return;
+        };
         if end > len {
             return;
         }
@@ -126,7 +146,9 @@ fn concat_legacy(v: &mut [u8], hit: &mut Vec<&'static str>) {
 
 fn concat_any(p: &mut Vec<u8>, hit: &mut Vec<&'static str>) {
     if p.first() == Some(&1) {
-        let Ok(mut env) = ciborium::de::from_reader::<ConcatEnvelope, _>(&p[1..]) else { return };
+        let Ok(mut env) = ciborium::de::from_reader::<ConcatEnvelope, _>(&p[1..]) else {
+            return;
+        };
         let before = hit.len();
         for s in env.signature_bytes.iter_mut() {
             sigreg_any(s, hit);
@@ -146,7 +168,9 @@ fn agg_any(b: &mut Vec<u8>, hit: &mut Vec<&'static str>) {
         Some(&1) => {
             // CBOR envelope; when it does not parse the decoder falls back to the legacy
             // reading where type byte 1 is not a concatenation proof: nothing to neutralise
-            let Ok(mut env) = ciborium::de::from_reader::<AggEnvelope, _>(&b[1..]) else { return };
+            let Ok(mut env) = ciborium::de::from_reader::<AggEnvelope, _>(&b[1..]) else {
+                return;
+            };
             if env.signature_type != 0 {
                 return;
             }
@@ -229,8 +253,12 @@ pub fn neutralise(route: Route, input: &[u8]) -> Option<(Vec<u8>, Vec<&'static s
 pub fn finding_by_site(clause: &str, location: &str) -> Option<&'static str> {
     match clause {
         "runaway-allocation" | "allocation-out-of-proportion" => Some(F_PREALLOC),
-        "arithmetic-overflow" if location.contains("proof_system/concatenation/proof.rs") => Some(F_CONCAT_OVERFLOW),
-        "arithmetic-overflow" if location.contains("single_signature/signature_registered_party.rs") => {
+        "arithmetic-overflow" if location.contains("proof_system/concatenation/proof.rs") => {
+            Some(F_CONCAT_OVERFLOW)
+        }
+        "arithmetic-overflow"
+            if location.contains("single_signature/signature_registered_party.rs") =>
+        {
             Some(F_SIGREG_OVERFLOW)
         }
         _ => None,
